@@ -99,6 +99,12 @@ Proof.
       + destruct (suf T o) as [q|]; [|inversion H; reflexivity].
         destruct (continues q p); [|inversion H; reflexivity].
         apply IHl in H. cbn [yield] in H. rewrite <- H. rewrite <- app_assoc. reflexivity.
+    - destruct (callr T) as [q|]; [|inversion H; reflexivity].
+      destruct (continues q p); [|inversion H; reflexivity].
+      destruct (slots T f S0 ts) as [[a r0]|] eqn:E; [|discriminate].
+      destruct r0 as [|t0 r0]; [discriminate|]. destruct t0; try discriminate.
+      apply IHs in E. destruct E as [E _]. apply IHl in H. subst ts. cbn [yield] in H.
+      rewrite <- H. rewrite <- !app_assoc. cbn [app]. rewrite <- app_assoc. reflexivity.
     - destruct (bin T sym_index) as [q|]; [|inversion H; reflexivity].
       destruct (continues q p); [|inversion H; reflexivity].
       destruct (slots T f S0 ts) as [[a r0]|] eqn:E; [|discriminate].
